@@ -54,6 +54,10 @@ class MultiDiscrete(AbstractSpace[Int[Array, " n"], None]):
         if x.shape != self.shape:
             return jnp.array(False)
 
+        if jnp.issubdtype(x.dtype, jnp.integer) or jnp.issubdtype(x.dtype, jnp.bool_):
+            # compare in one signed dtype (unsigned values would wrap when promoted against nvec)
+            x = x.astype(int)
+
         if ~jnp.array_equal(x, jnp.floor(x)):
             return jnp.array(False)
 
